@@ -86,5 +86,21 @@ try:
 
         def describe(self):
             return f"{self.owner}'s pack: {len(self.items)} items, {self.pockets} pockets"
+
+    from bardic.stdlib.relationship import Relationship as _Relationship
+    from bardic.stdlib.economy import Wallet as _Wallet
+
+    class Companion(_Relationship):      # a story's subclass with class-level defaults and a hook that changes one of them
+        mood = "neutral"
+        nickname = None
+
+        def on_trust_threshold_60(self):
+            self.mood = "warm"
+
+    class Coffer(_Wallet):               # a wallet with a class-level default currency
+        currency = "gold"
+        locked = False
 except Exception:  # noqa
     Backpack = None
+    Companion = None
+    Coffer = None
